@@ -208,6 +208,51 @@ def world_group(chk, rng, wi, pending):
                 o.s2 = o.k2 = None
                 ops.append(o)
                 ops.append(OpSpec(rng, w0, len(ops), sibling_of=o))
+    # products and quotients of the REFERENCE units of two base types, both
+    # ways round and at both levels: the resulting term has exactly two base
+    # elements and no numeric factor (the shortest path through the term
+    # code), whichever of the two types was declared first
+    bases = [t for t in w0.types.values() if not t.defn and t.has_ref]
+    pairs = [(a, b) for a in bases for b in bases if a is not b]
+    rng.shuffle(pairs)
+    for a, b in pairs[:4]:
+        for op in "*/":
+            for kk in ("uu", "qq"):
+                o = OpSpec(rng, w0, len(ops))
+                o.op, o.s1, o.s2 = op, a.ref, b.ref
+                o.k1, o.k2 = kk
+                o.n = None
+                ops.append(o)
+    # ... and every product / quotient of two reference units whose result
+    # is a declared type over exactly two base types although the operands'
+    # definitions expand to more items (acceleration * duration -> velocity)
+    reft = [t for t in w0.types.values() if t.has_ref]
+    two = []
+    for t in reft:
+        v = {k: e for k, e in w0.units[t.ref].vec.items() if e}
+        if len(v) == 2:
+            two.append(v)
+    cand = []
+    for t1 in reft:
+        for t2 in reft:
+            v1, v2 = w0.units[t1.ref].vec, w0.units[t2.ref].vec
+            if len([e for e in v1.values() if e]) + \
+                    len([e for e in v2.values() if e]) < 3:
+                continue
+            for op, sg in (("*", 1), ("/", -1)):
+                v = {k: v1.get(k, 0) + sg * v2.get(k, 0)
+                     for k in set(v1) | set(v2)}
+                v = {k: e for k, e in v.items() if e}
+                if v in two:
+                    cand.append((op, t1.ref, t2.ref))
+    rng.shuffle(cand)
+    for op, s1, s2 in cand[:6]:
+        for kk in ("uu", "qq"):
+            o = OpSpec(rng, w0, len(ops))
+            o.op, o.s1, o.s2 = op, s1, s2
+            o.k1, o.k2 = kk
+            o.n = None
+            ops.append(o)
     nops = len(ops)
     group = dict(wi=wi, results={}, plan=[d.to_json() for d in plan],
                  nops=nops)
